@@ -154,6 +154,10 @@ def judge_file(ctx, path, what, rc, out, count=True):
     lines, tail = vlib.check_trace_file(path)
     if rc != 0:
         kind = {66: "sanitizer", 67: "crash", 68: "hang", 124: "timeout"}.get(rc, "exit%d" % rc)
+        # a sanitizer report whose innermost frame is harness code is a harness bug, not a finding
+        fr = re.search(r"#0 0x[0-9a-f]+ in [^\n]*? (/\S+?):\d+", out)
+        if rc == 66 and fr and fr.group(1).startswith(vlib.HARNESS):
+            raise vlib.Infra("sanitizer report inside the harness itself: %s" % out[-1500:])
         m = re.search(r'"f":"(\w+)"', tail or "")
         op = m.group(1) if m else "?"
         if rc == 3 or (tail is None and not lines):
